@@ -202,6 +202,15 @@ class Scenario:
                 ops.append((5000, lambda: w.spawn(op_register(A, "S1", S1))))
                 checkpoints.append(5000 + 800 + SETTLE_MS)
                 checkpoints.append(5000 + 800 + SETTLE_MS + 5_400_000)
+            elif self.name == "stale-cache":
+                # the browsing host has been on the link all along and heard the announcements; its browser only starts when
+                # the cached pointer is past half (or most) of its 75 minutes, with nobody having refreshed it meanwhile
+                ops.append((1000, lambda: w.spawn(op_register(A, "S1", S1))))
+                ops.append((v["browse_at"], lambda: start_browser("B/a", B, TA)))
+                checkpoints.append(v["browse_at"] + SETTLE_MS)
+                t_op = v["browse_at"] + SETTLE_MS + 200
+                ops.append((t_op, lambda: w.spawn(op_unregister(A, "S1"))))
+                checkpoints.append(t_op + 300 + SETTLE_MS)
             elif self.name == "leave":
                 # the service is withdrawn (or its host closed) a few tens of milliseconds after a browser elsewhere started:
                 # the reply to the browser's first query and the goodbyes are on the link together
@@ -316,6 +325,8 @@ def plan(tier: str) -> List[Tuple[str, Dict[str, Any], int]]:
             ("leave", {"browse_at": 5000, "after": 30, "how": "unregister", "late": True, "socks": "dual"}, 2),
             ("leave", {"browse_at": 5000, "after": 130, "how": "close", "late": True, "socks": "dual"}, 2),
             ("idle", {"browse_at": 0}, 1), ("flap", {"browse_at": 0}, 1),
+            ("stale-cache", {"browse_at": 2_400_000}, 2), ("stale-cache", {"browse_at": 3_900_000}, 1),
+            ("stale-cache", {"browse_at": 2_400_000, "multi": True}, 1),
             ("three", {"browse_at": 500, "long": True}, 1), ("three", {"browse_at": 6000, "late": True, "long": True}, 1),
             # the same link with IPv6-only hosts, and with hosts that send on an IPv4 and an IPv6 socket (every datagram twice)
             ("unregister", {"browse_at": 0, "socks": "single6"}, 2), ("update-close", {"browse_at": 5000, "late": True, "socks": "single6"}, 2),
